@@ -1,7 +1,7 @@
 (* C14 phase 2: agreement of the two reader models on modules without blackbox instances (part A8) *)
 From stdpp Require Import strings gmap sets pretty.
-From CG Require Import Model.FastVerilog Proofs.FastVerilogProofs Proofs.ApiProofs Gen.Gen_fastv.
-From CG Require Import Proofs.FvA1 Proofs.FvA2 Proofs.FvA3 Proofs.FvA4 Proofs.FvA5 Proofs.FvA6 Proofs.FvA7.
+From CG Require Import Model.FastVerilog Proofs.FastVerilogProofs Gen.Gen_fastv.
+From CG Require Import Proofs.FvA0 Proofs.FvA1 Proofs.FvA2 Proofs.FvA3 Proofs.FvA4 Proofs.FvA5 Proofs.FvA6 Proofs.FvA7.
 Open Scope string_scope.
 
 Record subset_facts (a : ast) (bbs : list bbdef) : Prop := {
